@@ -18,7 +18,7 @@ CLAIMED = {
  "C04": P("Lean 4 theorems over ℝ (gauge covariance of gradient, Laplacian, Euler step; invariance of Js, μ, Jn; whole run by induction) + operator-level and paired-run correspondence",
           "Covariance for arbitrary site functions χ and invariance of all observables over whole runs are machine-checked for the model; the implementation's matrices are checked for covariance with random χ and paired real runs in shifted gauges (gauge-related initial data) are compared in gauge-invariant quantities at every frame.", "§5 C04"),
  "C05": P("Lean 4 theorems (loop invariant by induction over iterations, any physics, any k, any T) + exhaustive bounded correspondence of real tdgl.solve traces with an executable specification and with the Lean loop model",
-          "Frame labels, frame contents, clock, one record per step, stop step and thermalisation are theorems about the loop model for every update function; every (k, N) in the property's bound is run for real and its HDF5 trace compared bit for bit with a bare-update reference trajectory and with the model's trace.", "§5 C05"),
+          "Frame labels, frame contents, clock, one record per step, stop step and thermalisation are theorems about the loop model for every update function; every (k, N) in the property's bound is run for real and its HDF5 trace compared bit for bit with a bare-update reference trajectory and with the model's trace; the per-step record buffer (RunningState) and the reader's dt>0 mask are modelled and proved to return each record exactly once, and the recorded dt is tied to the dt of the answered site update.", "§5 C05"),
  "C06": P("Lean 4 theorems (identity rows before/after refresh, unpinned rows untouched, None = free, ψ=0 and any terminal value held) + real runs checked on every frame + Euler-step correspondence on all sites",
           "Pinning is a theorem about the operator and update model for every mesh and vector potential; real runs with terminal_psi in {0, None, 0.5, 1, 0.6i} are checked for exact equality on terminal sites and free evolution elsewhere.", "§5 C06"),
  "C10": P("Lean 4 theorems over any field (refresh = rebuild entrywise, any history, pinned rows, entries are the matrix of the row action) + MeshOperators driven through sequences vs fresh builds and vs the model's refreshed entries",
@@ -28,9 +28,9 @@ CLAIMED = {
  "C12": P("Lean 4 theorems over ordered fields (retry law, exhaustion, non-adaptive refusal, documented rule, bounds by induction over the run, fixed step) + step-by-step replay of TDGLSolver.update against the Lean controller",
           "The dt controller is proved for every refusal oracle and history; the real update is driven with genuine and scheduled refusals and compared bit for bit (dt used) with the model replayed on the same answers.", "§5 C12"),
  "C17": P("Lean 4 theorems over ℝ (Laplacian of constants vanishes at A=0, per-site fixed point for all γ,u,dt, whole-update fixed point, induction over steps) + undriven real runs and dt sequence vs the Lean controller",
-          "Stationarity of the uniform state is a theorem for every mesh given only solve(0)=0; undriven real runs on irregular/holed/smoothed meshes stay at the uniform state to 1e-15 and the adaptive step reaches dt_max as the model predicts.", "§5 C17"),
+          "Stationarity of the uniform state is a theorem for every mesh given only solve(0)=0; undriven real runs on irregular/holed/smoothed meshes stay at the uniform state to 1e-15 (also after a pinned run on the same device, with screening, and over 5 tau) and the adaptive step reaches dt_max as the model predicts. Known finding F17: with dt_max beyond the explicit stability limit dt*lambda_max/(u*sqrt(1+gamma^2)) < 2 rounding residue is amplified (bar_hole, gamma=0, u=1, dt_max=0.1).", "§5 C17"),
  "C07": P("Lean 4 theorems over any field (circumcentre equidistant and labelling-independent, kites tile the triangle, dual edges on bisectors, edge geometry) + per-mesh validation of the external mesher + cell areas / dual lengths vs an independently clipped Voronoi diagram",
-          "PARTIAL: the repo's own geometry (circumcentres, kite areas, dual lengths, edge vectors) is proved; the triangulation comes from Triangle/qhull/shapely and is validated on every generated mesh (orientation, tiling area, outlines, Euler relation, terminal lengths); cell areas and dual edge lengths are compared with an independent half-plane construction of the clipped Voronoi diagram on locally Delaunay cells.", "§5 C07"),
+          "PARTIAL: the repo's own geometry (circumcentres, kite areas, dual lengths, edge vectors) and connectivity (edge list = the sides of the triangles once each in lexicographic order, boundary flags = sides of exactly one triangle, boundary sites) are proved; the triangulation comes from Triangle/qhull/shapely and is validated on every generated mesh (orientation, tiling area, outlines, Euler relation, terminal lengths); cell areas and dual edge lengths are compared with an independent half-plane construction of the clipped Voronoi diagram on locally Delaunay cells.", "§5 C07"),
  "C08": P("Lean 4 theorems over any field (all dimensionless solver inputs are functions of SI values only; flux per triangle) + scale factors of the real constructor vs the Lean Units model for 27 unit triples + paired real runs on a shared dimensionless mesh",
           "Unit independence of Bc2/A0/K0, link exponents, terminal densities and screening weights is proved; the real constructor is compared with the model for every unit triple and real runs in different unit systems agree to 1e-9 on a shared mesh. Known finding: make_mesh itself is not scale invariant (Triangle).", "§5 C08"),
  "C09": P("Lean 4 theorems (schedule independence / full overwrite of the parallel kernels' output) + fresh-process bit-for-bit comparison across thread counts and output locations",
@@ -46,9 +46,9 @@ CLAIMED = {
  "C18": P("Lean 4 theorems (shoelace area under any affine map for any vertex count, rotation/translation/scaling/reversal, orientation, closing; chains of set operations and device membership under the kernel laws) + generated shapes with probe points, alias/mutation checks, Lean area model vs shapely",
           "The repo's own geometry logic is proved; shapely/matplotlib semantics are a stated assumption validated by sampling probe points away from boundaries.", "§5 C18"),
  "C19": P("Lean 4 theorems (validate accepts exactly the consistent option sets; balance test thresholds; failing pre-check leaves the file system unchanged and reports the first failure) + every enumerated class exercised on the real constructor/solve with directory listings + validate/currents correspondence on random option sets",
-          "Decision logic of the input validation is proved outright; each class of ill-posed input is instantiated at magnitudes from gross to 1e-6 with and without output path and must raise the documented error leaving no file behind.", "§5 C19"),
+          "Decision logic of the input validation is proved outright; each class of ill-posed input is instantiated at magnitudes from gross to 1e-6 with and without output path and must raise the documented error leaving no file behind; Device.__eq__ and the seed-solution guard are modelled (equality up to the order of holes/terminals, never for one more or fewer) and compared with the implementation on device pairs.", "§5 C19"),
  "C20": P("Lean 4 theorems (linearity of the Biot-Savart and Coulomb kernels for any weights, scalar = z of vector, sum of parts, H<->B round trip, sqeuclidean = euclidean^2) + numba kernels vs Lean folds and an extended-precision SI double sum + assembled fields of real solutions",
-          "Linearity/decomposition/prefactor statements are proved; kernels and Solution methods are compared with an independent SI double sum; the elliptic-integral loop formula is checked numerically against quadrature only (PARTIAL: Mathlib has no complete elliptic integrals).", "§5 C20"),
+          "Linearity/decomposition/prefactor statements are proved; kernels and Solution methods (in several unit systems) are compared with an independent SI double sum; the edge-to-site reconstruction get_quantity_on_site is modelled, proved linear and local, and compared; the elliptic-integral loop formula is checked numerically against quadrature only (PARTIAL: Mathlib has no complete elliptic integrals).", "§5 C20"),
 }
 PENDING_REASON = "check not yet built in this revision (work in progress; see DESIGN.md §9 order of work)"
 
